@@ -107,6 +107,11 @@ func (b *backend) Delete(ctx context.Context, r *proto.DeleteRequest) (resp *pro
 		// 1. expect revision is too old
 		// 2. concurrent modification
 		val, modRevision, getErr := b.get(ctx, r.Key, 0)
+		if errors.Is(getErr, storage.ErrKeyNotFound) {
+			// the key was deleted meanwhile: as in Update, there is no current key-value to report
+			// (the value read before the refused commit is no longer the key's value)
+			return resp, nil
+		}
 		if getErr != nil {
 			resp.Kv = &proto.KeyValue{
 				Key:      r.Key,
